@@ -356,9 +356,17 @@ def run_property(prop, modname, tier, level, title='', record_baseline=False):  
     os.makedirs(os.path.join(VERIF, 'replays'), exist_ok=True)
     out_lines = []
     real_violations = []
+    aux_names = set()
     for (name, model, detail, cname, smt2) in violations:
         m_ = re.match(r'(C\d\d)/', name)
-        if (m_ and m_.group(1) != prop) or (not m_):
+        c_ = by_contract.get(cname)
+        if not m_ and c_ is not None and c_.replay is not None and \
+                model is not None:
+            # an auxiliary invariant failed: a violation only if the
+            # counterexample leads to a failing input of the real code
+            # (decided by the replay against this property's oracle)
+            aux_names.add(name)
+        elif (m_ and m_.group(1) != prop) or (not m_):
             # an obligation of another property, or an auxiliary invariant:
             # this property's proof is incomplete, but that is not a
             # violation of this property
@@ -434,6 +442,16 @@ def run_property(prop, modname, tier, level, title='', record_baseline=False):  
                 'detail': detail, 'verifier_output': smt2,
                 'replay': replay_info, 'confirmed_on_real_code': confirmed,
             }, fh, indent=1, default=str)
+        decides = (replay_info or {}).get('decides', ())
+        if isinstance(decides, dict):
+            # marker on the replay's output -> properties it decides
+            out_ = (replay_info or {}).get('stdout', '') or ''
+            decides = [q for k, v in decides.items() if k in out_ for q in v]
+        if name in aux_names and not (confirmed is True and prop in decides):
+            undecided.append((cname, f'{name}: refuted (auxiliary '
+                              'invariant; no failing input of the real code '
+                              'found for it)'))
+            continue
         if confirmed is False:
             spurious.append(name)
             undecided.append((cname, f'{name}: counterexample did not '
